@@ -692,6 +692,9 @@ def main():
         sanitizer_reports[fl] += 1
         is_leak = "LeakSanitizer" in text or sig == "miri-leak"
         hit_props = {"C06"} if is_leak else ({"C05"} | ({prop} if prop in CRASH_IS_VIOLATION else set()))
+        if re.search(r"double[- ]free", text):
+            # the allocator / sanitizer saw the same object released twice: C06's "never twice"
+            hit_props |= {"C06"}
         if kind == "sanitizer" and "ThreadSanitizer" in text:
             hit_props = {"C15"}
         if prop in hit_props:
